@@ -2,6 +2,7 @@ import GV.Driver
 import GV.DriverExt
 import GV.EngineDriver
 import GV.ClientDriver
+import GV.AwsDriver
 open GV
 
 structure Full where
@@ -17,6 +18,8 @@ def dispatchAll (st : Full) (line : String) : Full × String :=
   else if verb.startsWith "cli." then
     let (c', r) := cliDispatch st.cli verb head payload
     ({ st with cli := c' }, r)
+  else if verb.startsWith "aws." then
+    (st, awsDispatch verb head payload)
   else
     let (b', r) := dispatch st.base line
     ({ st with base := b' }, r)
